@@ -18,9 +18,11 @@ CONSTANTS
   Writers,    \* endpoints whose application writes (subset of {1, 2})
   SnOff,      \* <<initial sequence number of endpoint 1, of endpoint 2>>
   ClkOff,     \* initial value of the millisecond clock
+  HealEnabled, \* TRUE: the Heal action exists (C02/C03 instances); FALSE: the run stays in the faulty phase
   Drive,      \* "free": Flush and Tick are independent actions (raw-core use, any timing);
               \* "tick": session-style drive -- time advances in rounds, each round flushes endpoint 1 then 2,
               \*         and an accepted Send is followed by a flush of the writer (Write without write-delay)
+  ReaderPaused, \* endpoints whose application does not read until the network has healed (C03)
   Forged      \* set of forged wire segments that may be injected (empty for genuine-peer properties)
 
 VARIABLES k,      \* k[e]: endpoint state
@@ -30,13 +32,14 @@ VARIABLES k,      \* k[e]: endpoint state
           faults, \* [drop, dup] used so far
           rd,     \* rd[e]: reader history at e: [off: bytes returned so far, bad: a returned range was not the next one, msgs: lengths returned]
           wr,     \* wr[e]: writer history at e: lengths accepted by Send, in order
+          healed, \* [on, at, bound]: once on, faults are over, the reader reads and the drive is the deterministic round (C02/C03)
           phase,  \* 0: any action; e in {1,2}: only Flush(e) next, then Flush(e+1) (a round); 10+e: only Flush(e) next, then free
           reinfl, \* reinfl[e]: while latched, a later flush of e made a fast/early retransmission (which re-inflates cwnd)
           latch,  \* latch[e]: snd_una at the last flush of e that declared a timeout loss (-1: none since una moved)
           obs,    \* observation of the last step (return value, datagrams emitted) -- compared with the code, hidden by VIEW
           act     \* the last action (name and arguments)
 
-vars == <<k, net, now, elapsed, faults, rd, wr, phase, latch, reinfl, obs, act>>
+vars == <<k, net, now, elapsed, faults, rd, wr, healed, phase, latch, reinfl, obs, act>>
 Ends == {1, 2}
 Peer(e) == 3 - e
 
@@ -58,6 +61,7 @@ Init ==
   /\ wr = [e \in Ends |-> <<>>]
   /\ latch = [e \in Ends |-> -1] /\ reinfl = [e \in Ends |-> FALSE]
   /\ phase = 0
+  /\ healed = [on |-> FALSE, at |-> 0, bound |-> 0]
   /\ obs = NoObs
   /\ act = [name |-> "Init", e |-> 0, a |-> 0, b |-> 0]
 
@@ -83,13 +87,14 @@ Send(e, n) ==
        /\ phase' = IF Drive = "tick" /\ r.ret = 0 THEN 10 + e ELSE 0
   /\ phase = 0
   /\ act' = [name |-> "Send", e |-> e, a |-> n, b |-> 0]
-  /\ UNCHANGED <<net, now, elapsed, faults, rd, latch, reinfl>>
+  /\ UNCHANGED <<net, now, elapsed, faults, rd, latch, reinfl, healed>>
 
 (* the ranges returned must continue exactly where the previous Recv stopped *)
 RECURSIVE Contig(_, _)
 Contig(data, off) == IF data = <<>> THEN TRUE ELSE Head(data).off = off /\ Contig(Tail(data), off + Head(data).len)
 
 Recv(e, buflen) ==
+  /\ healed.on \/ e \notin ReaderPaused
   /\ LET r == RecvOp(k[e], buflen) IN
        /\ k' = [k EXCEPT ![e] = r.k]
        /\ rd' = IF r.ret >= 0
@@ -98,7 +103,7 @@ Recv(e, buflen) ==
        /\ obs' = [NoObs EXCEPT !.ret = r.ret, !.data = r.data]
   /\ phase = 0
   /\ act' = [name |-> "Recv", e |-> e, a |-> buflen, b |-> 0]
-  /\ UNCHANGED <<net, now, elapsed, faults, wr, latch, reinfl, phase>>
+  /\ UNCHANGED <<net, now, elapsed, faults, wr, latch, reinfl, phase, healed>>
 
 Flush(e) ==
   /\ \/ phase = 0 /\ Drive = "free" /\ phase' = 0
@@ -110,7 +115,7 @@ Flush(e) ==
        /\ obs' = [NoObs EXCEPT !.ret = r.ret, !.out = r.out, !.adm = r.adm, !.e = e, !.latched = Latched(e, k[e]), !.reinfl = reinfl[e]]
        /\ latch' = LatchAfter(e, r.k, r.adm) /\ reinfl' = ReinflAfter(e, k[e], r.k, r.adm)
   /\ act' = [name |-> "Flush", e |-> e, a |-> 0, b |-> 0]
-  /\ UNCHANGED <<now, elapsed, faults, rd, wr>>
+  /\ UNCHANGED <<now, elapsed, faults, rd, wr, healed>>
 
 Update(e) ==
   /\ LET r == UpdateOp(k[e], now) IN
@@ -120,7 +125,7 @@ Update(e) ==
        /\ latch' = LatchAfter(e, r.k, r.adm) /\ reinfl' = ReinflAfter(e, k[e], r.k, r.adm)
   /\ phase = 0 /\ Drive = "free"
   /\ act' = [name |-> "Update", e |-> e, a |-> 0, b |-> 0]
-  /\ UNCHANGED <<now, elapsed, faults, rd, wr, phase>>
+  /\ UNCHANGED <<now, elapsed, faults, rd, wr, phase, healed>>
 
 RemoveAt(s, i) == SubSeq(s, 1, i - 1) \o SubSeq(s, i + 1, Len(s))
 
@@ -139,7 +144,7 @@ Deliver(i, keep) ==
   /\ faults' = IF keep = 1 THEN [faults EXCEPT !.dup = @ + 1] ELSE faults
   /\ phase = 0
   /\ act' = [name |-> "Deliver", e |-> net[i].dst, a |-> i, b |-> keep]
-  /\ UNCHANGED <<now, elapsed, rd, wr, phase>>
+  /\ UNCHANGED <<now, elapsed, rd, wr, phase, healed>>
 
 Drop(i) ==
   /\ i \in 1..Len(net) /\ faults.drop < MaxDrop
@@ -148,15 +153,15 @@ Drop(i) ==
   /\ obs' = NoObs
   /\ phase = 0
   /\ act' = [name |-> "Drop", e |-> net[i].dst, a |-> i, b |-> 0]
-  /\ UNCHANGED <<k, now, elapsed, rd, wr, latch, reinfl, phase>>
+  /\ UNCHANGED <<k, now, elapsed, rd, wr, latch, reinfl, phase, healed>>
 
 Tick(d) ==
-  /\ elapsed + d <= MaxTime
+  /\ healed.on \/ elapsed + d <= MaxTime
   /\ now' = U(now + d) /\ elapsed' = elapsed + d
   /\ obs' = NoObs
   /\ phase = 0 /\ phase' = IF Drive = "tick" THEN 1 ELSE 0
   /\ act' = [name |-> "Tick", e |-> 0, a |-> d, b |-> 0]
-  /\ UNCHANGED <<k, net, faults, rd, wr, latch, reinfl>>
+  /\ UNCHANGED <<k, net, faults, rd, wr, latch, reinfl, healed>>
 
 (* a forged datagram (one segment) fed straight to e: fields are relative to e's current state *)
 Forge(e, f) ==
@@ -173,9 +178,19 @@ Forge(e, f) ==
         /\ latch' = LatchAfter(e, r.k, r.adm) /\ reinfl' = ReinflAfter(e, k[e], r.k, r.adm)
   /\ phase = 0
   /\ act' = [name |-> "Forge", e |-> e, a |-> 0, b |-> 0, f |-> f]
-  /\ UNCHANGED <<now, elapsed, rd, wr, phase>>
+  /\ UNCHANGED <<now, elapsed, rd, wr, phase, healed>>
 
-Next ==
+Drained == \A e \in Ends : WaitSnd(k[e]) = 0 /\ rd[Peer(e)].off = k[e].woff
+
+(* the network heals: from now on nothing is lost or duplicated, the readers read, both ends are flushed every interval *)
+Heal ==
+  /\ ~healed.on /\ phase = 0
+  /\ healed' = [on |-> TRUE, at |-> elapsed, bound |-> HealBound(k[1], now) + HealBound(k[2], now)]
+  /\ obs' = NoObs
+  /\ act' = [name |-> "Heal", e |-> 0, a |-> 0, b |-> 0]
+  /\ UNCHANGED <<k, net, now, elapsed, faults, rd, wr, phase, latch, reinfl>>
+
+FaultyNext ==
   \/ \E e \in Ends, n \in WriteSizes : Send(e, n)
   \/ \E e \in Ends, b \in ReadSizes : Recv(e, b)
   \/ \E e \in Ends : Flush(e)
@@ -184,6 +199,16 @@ Next ==
   \/ \E i \in 1..Len(net) : Drop(i)
   \/ \E d \in Ticks : Tick(d)
   \/ \E e \in Ends, f \in Forged : Forge(e, f)
+
+(* deterministic healed schedule: pending flushes of the round, then deliveries in order, then reads, then time *)
+HealedNext ==
+  IF phase # 0 THEN \E e \in Ends : Flush(e)
+  ELSE IF net # <<>> THEN Deliver(1, 0)
+  ELSE IF \E e \in Ends : PeekSize(k[e]) >= 0 THEN LET e == CHOOSE x \in Ends : PeekSize(k[x]) >= 0 IN Recv(e, 1000000)
+  ELSE IF Drained THEN UNCHANGED vars
+  ELSE Tick(k[1].interval)
+
+Next == IF healed.on THEN HealedNext ELSE (FaultyNext \/ (HealEnabled /\ Heal))
 
 Spec == Init /\ [][Next]_vars
 
@@ -213,8 +238,12 @@ NoAdmitAfterLoss       == obs.latched /\ ~obs.reinfl => obs.adm.n = 0
 NoAdmitAfterLossStrict == obs.latched => obs.adm.n = 0
 UnaMonotone == [][\A e \in Ends : SDiff(k'[e].snd_una, k[e].snd_una) >= 0 /\ SDiff(k'[e].rcv_nxt, k[e].rcv_nxt) >= 0]_vars
 
+(* C02 / C03: after healing everything written is delivered and both backlogs return to zero within the bound *)
+DrainsWithinBound == healed.on => (Drained \/ elapsed - healed.at <= healed.bound)
+(* C03: while the reader is paused nothing is lost and buffering stays within the C04 bounds (WindowDiscipline, Prefix) *)
+
 (* projection compared with the implementation after every step *)
 Proj == [k |-> k, net |-> net, now |-> elapsed, obs |-> obs]
-View == <<k, net, now, faults, rd, wr, latch, reinfl, phase>>
+View == <<k, net, now, faults, rd, wr, latch, reinfl, phase, healed>>
 NetBound == Len(net) <= MaxNet
 =============================================================================
